@@ -1032,20 +1032,6 @@ fn gen_component(rng: &mut Rng, sw: &Swarm, index: usize) -> Component {
             defs.insert(user, json!({"type": "object", "properties": {"nick": r(&alias), "id": {"type": "integer"}}, "required": ["id"]}));
         }
     }
-    // two struct definitions whose names differ in letter case only
-    if sw.awkward && rng.chance(1, 6) {
-        let pascal_structs: Vec<String> = defs
-            .iter()
-            .filter(|(n, d)| d.get("type") == Some(&json!("object")) && d.get("properties").is_some() && !n.contains('_') && !n.contains('-') && n.chars().next().map(|c| c.is_ascii_uppercase()).unwrap_or(false))
-            .map(|(n, _)| n.clone())
-            .collect();
-        if let Some(n) = pascal_structs.first() {
-            let twin: String = n.chars().enumerate().map(|(i, c)| if i == 0 { c } else { c.to_ascii_lowercase() }).collect();
-            if twin != *n && !defs.contains_key(&twin) {
-                defs.insert(twin, json!({"type": "object", "properties": {"twin": {"type": "boolean"}}}));
-            }
-        }
-    }
     // a definition that carries the very name typify generates for an inline child
     // of another definition (`Foo` + inline object property `bar`, and `FooBar`)
     if sw.awkward && sw.defaults == 0 && rng.chance(1, 8) {
@@ -1726,9 +1712,26 @@ pub fn generate(seed: u64, focus: Focus, faults: bool) -> RunDesc {
     let mut var_rng = rng.fork();
 
     let sw = Swarm::draw(&mut sw_rng, focus, faults);
-    let comps: Vec<Component> = (0..sw.n_components)
+    let mut comps: Vec<Component> = (0..sw.n_components)
         .map(|i| gen_component(&mut comp_rng, &sw, i))
         .collect();
+    // two struct definitions whose names differ in letter case only, delivered by
+    // DIFFERENT calls (so that re-ordered histories assign their ids in either order)
+    if comps.len() >= 2 && sw.awkward && comp_rng.chance(1, 3) {
+        let first: Option<String> = comps[0]
+            .defs
+            .iter()
+            .find(|(n, d)| d.get("type") == Some(&json!("object")) && d.get("properties").is_some() && !n.contains('_') && !n.contains('-') && n.chars().next().map(|c| c.is_ascii_uppercase()).unwrap_or(false))
+            .map(|(n, _)| n.clone());
+        if let Some(n) = first {
+            let twin: String = n.chars().enumerate().map(|(i, c)| if i == 0 { c } else { c.to_ascii_lowercase() }).collect();
+            let taken = comps.iter().any(|c| c.defs.iter().any(|(k, _)| *k == twin));
+            if twin != n && !taken {
+                comps[1].defs.push((twin, json!({"type": "object", "properties": {"twin": {"type": "boolean"}}})));
+                comps[1].defs.sort_by(|a, b| a.0.cmp(&b.0));
+            }
+        }
+    }
     let settings = gen_settings(&mut set_rng, &sw, &comps);
 
     // ----- history -----
